@@ -113,11 +113,99 @@ SAFE_DELETE = {  # op -> keys that are required by both formalisms (no model def
 }
 
 
-def mutate(r, kind, doc):
+_SLOTS: list = []
+
+
+def any_slots():
+    """(tag, required keys, all keys, field, is_dict) for every model field the compiled validators leave unconstrained
+    (`Any`, or a dict of `Any`): found by walking the validators' own description, not listed by hand"""
+    if _SLOTS:
+        return _SLOTS
+    from hugr._serialization.extension import Extension, Package
+    from hugr._serialization.serial_hugr import SerialHugr
+    from hugr._serialization.testing_hugr import TestingHugr
+
+    seen = {}
+
+    def walk(x):
+        if isinstance(x, dict):
+            if x.get("type") == "model" and isinstance(x.get("cls"), type):
+                seen.setdefault(x["cls"], x)
+            for k, v in x.items():
+                if k not in ("metadata", "cls"):
+                    walk(v)
+        elif isinstance(x, (list, tuple)):
+            for v in x:
+                walk(v)
+
+    def strip(sc):
+        while sc.get("type") in ("default", "nullable", "function-wrap", "function-before", "function-after"):
+            sc = sc["schema"]
+        return sc
+
+    for M in (SerialHugr, TestingHugr, Package, Extension):
+        walk(M.__pydantic_core_schema__)
+    for cls, node in seen.items():
+        inner = strip(node["schema"])
+        if inner.get("type") != "model-fields":
+            continue
+        tag, req, slots = None, set(), []
+        for name, f in inner["fields"].items():
+            key = f.get("validation_alias") if isinstance(f.get("validation_alias"), str) else name
+            fs = f["schema"]
+            base = strip(fs)
+            if fs.get("type") != "default":
+                req.add(key)
+            if base.get("type") == "literal" and fs.get("type") == "default" and tag is None and len(
+                    base.get("expected", [])) == 1:
+                tag = (key, base["expected"][0])
+            if base.get("type") == "any":
+                slots.append((key, False))
+            elif base.get("type") == "dict" and strip(base.get("values_schema", {"type": "any"})).get("type") == "any":
+                slots.append((key, True))
+        for key, is_dict in slots:
+            _SLOTS.append((cls.__name__, tag, frozenset(req), frozenset(inner["fields"]), key, is_dict))
+    return _SLOTS
+
+
+FREE = [{}, 7, "x", None, [1, {"a": None}], {"nodes": 3}, {"nodes": [], "edges": []}, {"version": "live"}, True]
+
+
+def mutate(r, kind, doc, force=None):
     """returns (mutated doc, expected verdict in strict, expected verdict in lax) or None"""
     d = copy.deepcopy(doc)
     hugrs = [d] if kind == "hugr" else (d["modules"] if kind == "package" else [])
-    op = r.choice(["none", "delete", "unknown-key", "bad-tag", "wrong-container", "unknown-key-nested", "enum-value"])
+    op = r.choice(["none", "delete", "unknown-key", "bad-tag", "wrong-container", "unknown-key-nested", "enum-value",
+                   "free-form", "free-form"])
+    op = force or op
+    if op == "free-form":
+        # a position both formalisms leave unconstrained (function-value bodies, custom-constant payloads, `misc`
+        # entries, fixed lowerings) is given arbitrary JSON: nothing may look inside it while decoding structurally
+        spots = []
+
+        def walk2(x):
+            if isinstance(x, dict):
+                for cname, tag, req, allk, key, is_dict in any_slots():
+                    if key in x and (tag is None or x.get(tag[0]) == tag[1]) and req <= set(x) <= allk and (
+                            not is_dict or isinstance(x[key], dict)):
+                        spots.append((x, key, is_dict, cname))
+                for v2 in x.values():
+                    walk2(v2)
+            elif isinstance(x, list):
+                for v2 in x:
+                    walk2(v2)
+
+        walk2(d)
+        if not spots:
+            return None
+        classes = sorted({sp[3] for sp in spots})
+        cn = "FunctionValue" if force and "FunctionValue" in classes else r.choice(classes)   # (class first)
+        tgt, key, is_dict, cname = r.choice([sp for sp in spots if sp[3] == cn])
+        if is_dict:
+            tgt[key]["zz"] = r.choice(FREE)
+        else:
+            tgt[key] = r.choice(FREE)
+        return f"free-form-{cname}", d, None, None
     if op == "enum-value":
         # an enumerated field (type bounds "C" / "A") given a near miss: the names of the Python enum members, other
         # cases, other letters; the value set is part of "same types" in both formalisms
@@ -207,12 +295,12 @@ def mutate(r, kind, doc):
     return None
 
 
-def corpus_doc(r):
+def corpus_doc(r, want=None):
     from vf.gen.extensions import build_extension, gen_extension
     from vf.gen.prog import gen_program
     from vf.interp import Interp
 
-    k = r.choice(["hugr", "hugr", "hugr", "package", "extension", "testing"])
+    k = want or r.choice(["hugr", "hugr", "hugr", "package", "extension", "testing"])
     if k == "testing":
         # a document of the testing model: any subset of {type, sum type, value, operation}, encoded from generated
         # descriptors
@@ -227,9 +315,15 @@ def corpus_doc(r):
             doc["typ"] = c05.dump(B.ty(g.ty(2)))
         if r.random() < 0.4:
             doc["sum_type"] = c05.dump(B.ty(["sum", [g.row(1, 2, in_row=False) for _ in range(r.randint(0, 3))]]))
-        if r.random() < 0.5:
+        if r.random() < 0.5 or want:
             vg = VGen(r)
             td = vg.const_type(2)
+            if r.random() < 0.4 or want:
+                # (a quota of function-valued constants: their body is the largest unconstrained position)
+                for _ in range(12):
+                    if td[0] == "func" and constable(td):
+                        break
+                    td = vg.const_type(2)
             if constable(td):
                 doc["value"] = c05.dump(VBuilder(B).val(vg.value(td, 2)))
         if r.random() < 0.5:
@@ -274,6 +368,8 @@ def acceptance(ctx, mode, cases):
         kind, mop, doc, exp = case["kind"], case["mutation"], case["doc"], case["expect"][0 if strict else 1]
         ctx.count(f"monitor:acceptance-agreement-{mode}")
         ctx.count("expect:" + ("either" if exp is None else "accept" if exp else "reject"))
+        if strict:
+            ctx.count("mutation:" + (mop if not mop.startswith("delete-top-") else "delete-top"))
         js = val[kind].is_valid(doc)
         try:
             model[kind].model_validate_json(json.dumps(doc))
@@ -377,6 +473,17 @@ def gen_cases(ctx, n):
                 cases.append({"kind": kind, "mutation": f"delete-top-{key}", "doc": d2, "expect": [False, False],
                               "rng": ["acc", i]})
                 ctx.case("acceptance", {"kind": kind, "mutation": f"delete-top-{key}", "rng": ["acc", i]}, True)
+    # a dedicated share for the positions no schema constrains (testing documents carrying a function value,
+    # extension documents carrying `misc` entries and values)
+    for i in ctx.mine(ctx.n(240, 6000)):
+        r = ctx.rng("ff", i)
+        kind, doc = corpus_doc(r, want="testing" if i % 3 else "extension")
+        m = mutate(r, kind, doc, force="free-form")
+        if m is None:
+            continue
+        mop, d, es, el = m
+        cases.append({"kind": kind, "mutation": mop, "doc": d, "expect": [es, el], "rng": ["ff", i]})
+        ctx.case("acceptance", {"kind": kind, "mutation": mop, "rng": ["ff", i]}, True)
     return cases
 
 
@@ -392,6 +499,12 @@ def replay(ctx, rec):
     case = rec.get("case") or {}
     if rec.get("stratum") == "acceptance" and "rng" in case:
         r = ctx.rng(*case["rng"])
+        if case["rng"][0] == "ff":
+            kind, doc = corpus_doc(r, want="testing" if case["rng"][1] % 3 else "extension")
+            mop, d, es, el = mutate(r, kind, doc, force="free-form")
+            acceptance(ctx, case.get("mode", "strict"),
+                       [{"kind": kind, "mutation": mop, "doc": d, "expect": [es, el], "rng": case["rng"]}])
+            return
         kind, doc = corpus_doc(r)
         if str(case.get("mutation", "")).startswith("delete-top-"):
             key = case["mutation"][len("delete-top-"):]
